@@ -104,6 +104,9 @@ func (e *fnEnc) inlineCall(c *blockCtx, in ssa.Instruction, cc *ssa.CallCommon, 
 	e.ctr = &FuncContract{Name: name, Options: map[string]string{}, Pkg: g.Pkg.Pkg.Path()}
 	e.pkg = g.Pkg.Pkg.Path()
 	e.ns = fmt.Sprintf("i%d.", e.inlCount)
+	// the helper is not under contract: its body is a model of its effect on the
+	// caller, and its own index/slice expressions are not obligations of the caller
+	e.noBounds = true
 	e.edge = map[[2]int]Term{}
 	e.backEdge = map[[2]int]bool{}
 	e.retSt = nil
